@@ -7,6 +7,7 @@ handler entry state, env_fp) with the VM: a per-instruction probe records the re
 observation must be a state of the accepted annotation."""
 import collections
 import os
+import re
 import sys
 
 import bytecode
@@ -20,6 +21,13 @@ CORPUS = [
     "function g(){ for (var x of [1,2]) { try { return x } finally { try { null.x } catch {} } } } print(g());",
     "function k(a){ L: for (var i = 0; i < 3; i++) { try { if (a) continue L; return i; } finally { print('f', i); } } return 'end'; } print(k(0), k(1));",
     "function m(){ do { try { continue; } finally { print('fin'); } } while (false); switch (1) { case 1: try { break; } finally { print('s'); } } } m();",
+    # leaving blocks that own an environment (captured let, with, catch parameter) through a finally block
+    "function f(o){ try { with (o) { return x; } } finally { print('f'); } } print(f({x: 1}));",
+    "function g(){ try { { let a = 1; var c = () => a; return c(); } } finally { let b = 2; var d = () => b; print(d()); } } print(g());",
+    "function h(){ for (let i = 0; i < 2; i++) { try { let q = () => i; if (i) return q(); } finally { print(i); } } } print(h());",
+    "function k(){ try { try { throw 1; } catch (e) { var z = () => e; return z(); } } finally { print('x'); } } print(k());",
+    "function m(){ L: for (let i = 0; i < 2; i++) { try { let a = i; var w = () => a; if (a) break L; continue L; } finally { print(w()); } } } m();",
+    "function* gg(){ try { { let a = 1; var c = () => a; yield c(); return 2; } } finally { print('gf'); } } print([...gg()].length);",
     # generators and async forms
     "function* g1(){ try { var x = yield 1; print(x); yield* [2, 3]; return 4; } finally { print('gfin'); } } var it = g1(); print(it.next().value, it.next('v').value, it.return(9).value);",
     "function* g2(){ for (var i = 0; i < 3; i++) { try { yield i; } catch (e) { print('caught', e); } } } var j = g2(); j.next(); print(j.throw('T').value); print([...g2()].length);",
@@ -77,7 +85,7 @@ def parse_answer(a):
         if re.fullmatch(r"\d+:\d+:\d+:\d+", x):
             pc, ar, en, bi = map(int, x.split(":"))
             ann.setdefault(pc, set()).add((ar, en, bi))
-    return verdict, guarded, ann, a.split("|")[0][:300] if verdict == "merge" else " ".join(x for x in t if ":" not in x or "=" in x)[:300]
+    return verdict, guarded, ann, a.split("|")[0][:300] if verdict in ("merge", "shallow") else " ".join(x for x in t if ":" not in x or "=" in x)[:300]
 
 
 def assign_env_fp(blocks):
@@ -166,7 +174,7 @@ def verify(ck, bins, progs, tag, run=True):
                     continue
                 for o in obs:
                     st["observations"] += 1
-                    if verdict in ("ok", "merge") and o[:3] not in ann.get(pc, ()):
+                    if verdict in ("ok", "merge", "shallow") and o[:3] not in ann.get(pc, ()):
                         obs_bad.append((pc, ops.get(pc), o[:3], sorted(ann.get(pc, ()))))
                     if b.get("fp") is not None and o[3] != b["fp"]:
                         obs_bad.append((pc, "env_fp", o[3], b["fp"]))
@@ -208,6 +216,16 @@ def run(ck):
             continue
         elif text.startswith("merge"):
             site = "depths-disagree-at-merge"
+            ops = set(re.findall(r"/op=(\w+)/", text))
+            first = re.search(r"shallow=(\d+)/op=(\w+)/", text)
+            if "envonly=1" in text and "athandler=1" in text and first and first.group(2) == "IteratorReturn":
+                # the clean-up a return/break/continue emits on its way out of a for-of loop (PopEnvironment, IteratorReturn)
+                # lies inside the range of the loop's own iterator-close handler, which restores the loop body's depth
+                site = "loop-exit-cleanup-inside-handler-range"
+        elif text.startswith("shallow"):
+            # everything else about the block is consistent; only the handler's assumption about the chain fails
+            ops = sorted(set(re.findall(r"/op=(\w+)/", text)))
+            site = "handler-entered-below-its-environment-count:" + ",".join(ops)
         elif "depth-underflow" in text:
             site = "depth-underflow-or-handler-deeper-than-chain"
         ck.fail_input({"site": site, "input": p, "block": b["name"], "expected": "check (C03.check, proved sound by check_sound) accepts the block",
